@@ -333,7 +333,7 @@ static std::string dump(World& w) {
 }
 
 // lifecycle state line (compared with the extracted Coq model): init, attached, #emitters, #sections, #labels, #relocs,
-// holder logger, emitter logger, #virtual registers, #jump annotations
+// holder logger, emitter logger, #virtual registers, #jump annotations, one-shot instruction state pending
 static std::string state_line(World& w) {
   std::ostringstream o;
   CodeHolder& c = *w.code;
@@ -346,6 +346,81 @@ static std::string state_line(World& w) {
     o << "/" << cc->virt_regs().size() << "/" << cc->jump_annotations().size();
   }
   else o << "/0/0";
+  // one-shot state pending for the next instruction (options / extra register / inline comment)
+  o << "/" << int(w.em->inst_options() != InstOptions::kNone || w.em->extra_reg().is_reg() || w.em->inline_comment() != nullptr);
+  return o.str();
+}
+
+// ---- representation probe: after the final reset-like step the recycled holder and emitter are compared, data member by data
+// member (table generated from the clang AST member lists, the same ones the Coq coverage obligation is proved over), with a
+// fresh holder + emitter brought into the same configuration. K_BYTES: same bytes; K_PTR / K_PTRS: same null-ness;
+// K_VEC / K_HASH: same element count; K_SKIP: retained resources (arenas, pools, the embedded .text section) and one cache flag.
+enum ProbeKind { K_BYTES, K_PTR, K_PTRS, K_VEC, K_HASH, K_SKIP };
+struct ProbeMember { const char* cls; const char* name; size_t offset; size_t size; ProbeKind kind; };
+#ifdef C16_HAVE_MEMBERS
+#define C16_MEMBER(cls, mem, kind) { #cls, #mem, offsetof(cls, mem), sizeof(((cls*)nullptr)->mem), kind },
+static const ProbeMember g_members[] = {
+#include "c16_members.inc"
+  { nullptr, nullptr, 0, 0, K_SKIP }
+};
+#else
+static const ProbeMember g_members[] = { { nullptr, nullptr, 0, 0, K_SKIP } };
+#endif
+
+static const uint8_t* subobject(World& w, const char* cls) {
+  if (!strcmp(cls, "CodeHolder")) return reinterpret_cast<const uint8_t*>(w.code);
+  if (!strcmp(cls, "BaseEmitter")) return reinterpret_cast<const uint8_t*>(static_cast<BaseEmitter*>(w.em));
+  if (!strcmp(cls, "BaseAssembler")) return w.kind == 'a' ? reinterpret_cast<const uint8_t*>(static_cast<BaseAssembler*>(w.em)) : nullptr;
+  if (!strcmp(cls, "BaseBuilder")) return w.kind != 'a' ? reinterpret_cast<const uint8_t*>(static_cast<BaseBuilder*>(w.em)) : nullptr;
+  if (!strcmp(cls, "BaseCompiler")) return w.kind == 'c' ? reinterpret_cast<const uint8_t*>(static_cast<BaseCompiler*>(w.em)) : nullptr;
+  return nullptr;
+}
+
+static void init_holder(World& w);
+
+static std::string probe(World& w) {
+  World f;
+  f.is_x86 = w.is_x86; f.kind = w.kind;
+  f.is_32 = w.code->arch() == Arch::kX86;
+  f.base = w.code->base_address();
+  f.code = new CodeHolder();
+  init_holder(f);
+  f.em = make_emitter(f);
+  // same configuration: loggers, diagnostics (all of it is user configuration that persists by contract)
+  if (w.code->logger()) f.code->set_logger(w.log1);
+  if (w.em->has_own_logger()) f.em->set_logger(w.log2);
+  f.em->add_diagnostic_options(w.em->diagnostic_options());
+  f.code->attach(f.em);
+  bool extra_attached = w.extra && w.extra->code() == w.code;
+  std::ostringstream o;
+  size_t compared = 0;
+  std::string diffs;
+  for (const ProbeMember* m = g_members; m->cls; m++) {
+    const uint8_t* a = subobject(w, m->cls);
+    const uint8_t* b = subobject(f, m->cls);
+    if (!a || !b || m->kind == K_SKIP) continue;
+    if (extra_attached && (!strcmp(m->name, "_attached_prev") || !strcmp(m->name, "_attached_next") ||
+                           !strcmp(m->name, "_attached_first") || !strcmp(m->name, "_attached_last"))) continue;
+    a += m->offset; b += m->offset;
+    bool same = true;
+    switch (m->kind) {
+      case K_BYTES: same = memcmp(a, b, m->size) == 0; break;
+      case K_PTR: case K_PTRS:
+        for (size_t i = 0; i + sizeof(void*) <= m->size; i += sizeof(void*)) {
+          void* pa; void* pb; memcpy(&pa, a + i, sizeof(void*)); memcpy(&pb, b + i, sizeof(void*));
+          if ((pa == nullptr) != (pb == nullptr)) same = false;
+        }
+        break;
+      case K_HASH: same = reinterpret_cast<const ArenaHashBase*>(a)->_size == reinterpret_cast<const ArenaHashBase*>(b)->_size; break;
+      case K_VEC: same = reinterpret_cast<const ArenaVectorBase*>(a)->_size == reinterpret_cast<const ArenaVectorBase*>(b)->_size; break;
+      default: break;
+    }
+    compared++;
+    if (!same) { diffs += (diffs.empty() ? "" : ","); diffs += m->cls; diffs += "::"; diffs += m->name; }
+  }
+  o << compared << " " << (diffs.empty() ? "-" : diffs);
+  delete f.em;
+  delete f.code;
   return o.str();
 }
 
@@ -424,7 +499,10 @@ static void run_case(const std::vector<std::string>& tok) {
     else if (st == "V1") w.em->add_diagnostic_options(DiagnosticOptions::kValidateAssembler | DiagnosticOptions::kValidateIntermediate);
     else if (st == "V0") w.em->clear_diagnostic_options(DiagnosticOptions::kValidateAssembler | DiagnosticOptions::kValidateIntermediate);
     else if (st[0] == 'H') perturb_heap(w, unsigned(atol(st.c_str() + 1)));
-    else if (st.compare(0, 2, "P:") == 0) { final_prog = st.substr(2); run_prog(w, final_prog); }
+    else if (st.compare(0, 2, "P:") == 0) {
+      printf("M %s %s\n", id.c_str(), probe(w).c_str());
+      final_prog = st.substr(2); run_prog(w, final_prog);
+    }
     else { printf("X %s bad-step:%s\n", id.c_str(), st.c_str()); return; }
     trace += (trace.empty() ? "" : " ") + state_line(w);
     w.log1->content().clear();
@@ -447,6 +525,7 @@ static void run_case(const std::vector<std::string>& tok) {
     run_prog(f, final_prog);
     std::string fr = dump(f);
     printf("F %s %s\n", id.c_str(), fr.c_str());
+    fflush(stdout);        // the destructors below may still trip a sanitizer: keep the lines whole
     delete f.em;
     delete f.code;
   }
@@ -483,7 +562,7 @@ int main(int argc, char** argv) {
     int status = 0;
     waitpid(pid, &status, 0);
     if (!(WIFEXITED(status) && WEXITSTATUS(status) == 0)) {
-      printf("X %s status=%d sig=%d\n", tok[1].c_str(), WIFEXITED(status) ? WEXITSTATUS(status) : -1, WIFSIGNALED(status) ? WTERMSIG(status) : 0);
+      printf("\nX %s status=%d sig=%d\n", tok[1].c_str(), WIFEXITED(status) ? WEXITSTATUS(status) : -1, WIFSIGNALED(status) ? WTERMSIG(status) : 0);
     }
   }
   free(line);
